@@ -31,8 +31,10 @@ import (
 	"github.com/nspcc-dev/neofs-sdk-go/version"
 )
 
-// FPUnderflow is the fingerprint of the suspected defect: the unsigned
-// subtraction epoch−unpaidSince in shard/gc.go wraps when unpaidSince > epoch.
+// FPUnderflow is the fingerprint of the defect found by this check and FIXED in
+// /repo commit b5c6f5c: the unsigned subtraction epoch−unpaidSince in
+// shard/gc.go wrapped when unpaidSince > epoch. It only tags the failure
+// message now; nothing is excused.
 const FPUnderflow = "C47:unpaid-since-after-epoch-underflow"
 
 // Domain bounds.
@@ -299,10 +301,6 @@ func (k *Collector) Judge(path string, c Cell, epochHandled bool, first int, wan
 	}
 	if got && !want {
 		if epochHandled && underflowClass(c, first) {
-			if k.Rec.Known(FPUnderflow) {
-				k.Rec.Label("known:unpaid-since-after-epoch")
-				return
-			}
 			k.fails = append(k.fails, failure{c, path, "container DISCARDED although its unpaid mark is newer than the processed epoch [" + FPUnderflow + "]"})
 			return
 		}
